@@ -200,7 +200,7 @@ def run(ctx):
             r3b.violate("C03|R3b|%s" % n, "%s answers for the static lookup and never selects 206 Partial Content: a Range request gets its slice under another status" % n, fn0.file, fn0.span["line"], n)
 
     # R8 the request's Range header is what the range computation receives
-    r6 = chk.rule("R8-range-header-reaches-the-computation", "the header argument of every call of the range computation (Range::get_content_range_list) in request-reachable code is, where the request carries a Range header, that header: the argument has a definition taken from the request's Range lookup under the lookup's Some edge, and the call is reachable from it", floor=4)
+    r6 = chk.rule("R8-range-header-reaches-the-computation", "the header argument of every call of the range computation (Range::get_content_range_list) in request-reachable code is, where the request carries a Range header, that header: the argument has a definition taken from the request's Range lookup under the lookup's Some edge, and the call is reachable from it", floor=1)
     from .parse_common import deep_strings
     for n in sorted(G.reachable(R.connection_roots())):
         fn0 = F.fns.get(n)
@@ -249,7 +249,7 @@ def run(ctx):
                 r6.violate("C03|R8|%s|%d" % (n, k), "%s calls the range computation (line %d) with a header that is never the request's Range header: %s - the requested range is ignored" % (n, t["span"]["line"], why), t["span"]["file"], t["span"]["line"], n)
 
     # R4 labelling consistency in the range-header parser
-    r4 = chk.rule("R4-label-matches-read", "in the range-header parser the body of every ContentRange comes from read_file_partially(path, R.start, R.end) of the same Range R that is stored as its label, and size derives from the file-length parameter", floor=3)
+    r4 = chk.rule("R4-label-matches-read", "in the range-header parser the body of every ContentRange comes from read_file_partially(path, R.start, R.end) of the same Range R that is stored as its label, and size derives from the file-length parameter", floor=1)
     hdu = du_of(hp)
     reads = [(bid, t) for bid, t in hp.calls() if (callee_name(t) or "").endswith("read_file_partially")]
     other_reads = [(bid, t) for bid, t in hp.calls() if re.search(r"(FileExt::read_file$|std::fs::read|std::fs::File::open|as std::io::Read>::read)", callee_name(t) or "")]
